@@ -631,6 +631,10 @@ class CSSStyleDeclaration(CSS2Properties, css_parser.util.Base2):
             return self.removeProperty(name)
         else:
             newp = Property(name, value, priority, parent=self)
+            if newp.wellformed and self._normalize(name) != newp.name:
+                # e.g. ' color ' or '\\43olor' are stored as 'color', so
+                # that is the name of the property to be replaced
+                name = newp.literalname
 
         if newp.wellformed:
             if replace:
